@@ -327,6 +327,14 @@ func main() {
 			emit(o)
 		}
 	}
+	// (5) column defaults as an inspection reports them
+	for _, d := range ds {
+		for label, s := range defaultSchemas(d.name) {
+			o := obs{Dialect: d.name, Kind: "default", Fixpoint: true, Type: label}
+			roundTrip(d, s, &o)
+			emit(o)
+		}
+	}
 	w.Flush()
 	of.Close()
 	wf.Flush()
